@@ -344,7 +344,7 @@ def r_internalload(root):
     fns = {k: v for k, v in helper_functions(root, MM, "TextXMetaModel.internal_model_from_file").items() if k not in ("model_from_file", "internal_model_from_file", "model_from_str", "_call_model_processors", "_cached_model_ids")}
     ts = load(root, "textx/scoping/__init__.py"); cds = {c.name: c for c in ts.body if isinstance(c, ast.ClassDef)}
     fns_s = {f.name: f for f in ts.body if isinstance(f, ast.FunctionDef)}
-    FILE_TEXT = "from the file\\r\\nsecond line \\n"; GIVEN = "given text\\r\\nsecond line \\n"
+    FILE_TEXT = "from the file\r\nsecond line \n"; GIVEN = "given text\r\nsecond line \n"
     class _Falsy(HS):
         def __bool__(s): return False
         def __len__(s): return 0
@@ -398,4 +398,33 @@ def r_internalload(root):
         k, v, ev, model, params, rp = run(None, callback=False, repo=True, cached=cached)
         ok = k == "ret" and v is cached and not [e for e in ev if e[0] in ("parse", "open")] and rp[".all_models"][".filename_to_model"].get("/abs/models/a.mdl") is cached
         rep("global repository: %s is returned without parsing" % what, ok, "with a global repository that holds /abs/models/a.mdl (%s) the load %s after the steps %s; documented: that very model is returned, nothing is read or parsed" % (what, "returns the cached model" if k == "ret" and v is cached else ("raises %s" % v if k == "raise" else "returns another model"), steps(ev)), props_=("C17", "C16"))
+    return inst, out
+
+def r_validateuc(root):
+    """C14.r  validate_user_classes decided by evaluation on a meta-model object built by interpreting __init__ with user
+    classes: a user class that no rule of the grammar was bound to - also one named like a built-in base type (INT, ID, ...),
+    which every namespace can look up - is refused with TextXSemanticError before any model is loaded; a meta-model whose
+    user classes were all bound passes."""
+    from sa import objmodel
+    out = []; inst = 0
+    W = "TextXMetaModel.validate_user_classes"
+    def scenario(names, used):
+        clss = [pyeval.ClassObj(n, {"__name__": n}) for n in names]
+        me, base = objmodel.new_metamodel(root, classes=clss)
+        uc = me.get(".user_classes")
+        if not isinstance(uc, dict) or sorted(uc) != sorted(names): raise AnalysisError("TextXMetaModel.__init__: user_classes is %r for classes named %s" % (sorted(uc) if isinstance(uc, dict) else uc, names))
+        if "._used_rule_names_for_user_classes" not in me: raise AnalysisError("TextXMetaModel.__init__: _used_rule_names_for_user_classes not set")
+        for n in used:
+            me["._used_rule_names_for_user_classes"].add(n)
+            base["self._new_class"](n)                  # the rule of that name exists in the grammar's namespace
+        k, v = objmodel.call_method(root, me, base, "validate_user_classes")
+        return k, (v.cls if k == "raise" else v)
+    for names, used, want, what in ((["Used"], ["Used"], "ret", "every user class was bound to a rule"), (["Used", "Orphan"], ["Used"], "TextXSemanticError", "a user class no rule is named like"),
+                                    (["Used", "INT"], ["Used"], "TextXSemanticError", "a user class named like the built-in base type INT, which the grammar does not redefine"), (["ID"], [], "TextXSemanticError", "only a class named like the base type ID")):
+        inst += 1
+        k, v = scenario(names, used)
+        ok = (k == "ret") if want == "ret" else (k == "raise" and v == want)
+        for pr in ("C14", "C23"): ob(pr, "C14.r", MM, W, "classes %s, bound %s" % (names, used), ok)
+        if not ok:
+            for pr in ("C14", "C23"): out.append(Finding(pr, "C14.r", MM, W, "classes=%s" % names, "with the user classes %s of which %s were bound to rules (%s) validate_user_classes %s; documented: %s - an unbound class has no attribute storage, the first load would fail half-way through the instrumentation of the user classes" % (names, used, what, "passes" if k == "ret" else "raises %s" % v, "it passes" if want == "ret" else "TextXSemanticError '<name> class is not used in the grammar'"), witness="metamodel_from_str(grammar, classes=[Used, INT]) with class INT: pass"))
     return inst, out
